@@ -138,9 +138,9 @@ Qed.
 (* ------------------------------------------------------------------------- satisfiability *)
 (* let s0 = {a | default = 1, b = a + 1} in let s1 = {a = 5} in let s2 = s0 & s1 in let s3 = s2 & s0 in .. *)
 Definition example_history : history :=
-  [ SLit [(0%N, {| fprio := PBot; fbody := Some (Num 1); fdyn := false |});
-          (1%N, {| fprio := PNeut; fbody := Some (Add (Var 0%N) (Num 1)); fdyn := false |})];
-    SLit [(0%N, {| fprio := PNeut; fbody := Some (Num 5); fdyn := false |})];
+  [ SLit [(0%N, {| fprio := PBot; fbody := Some (Num 1); fdyn := false; fctrs := [] |});
+          (1%N, {| fprio := PNeut; fbody := Some (Add (Var 0%N) (Num 1)); fdyn := false; fctrs := [] |})];
+    SLit [(0%N, {| fprio := PNeut; fbody := Some (Num 5); fdyn := false; fctrs := [] |})];
     SMerge 0 1;
     SMerge 2 0 ].
 
@@ -179,7 +179,8 @@ Qed.
 Lemma alloc_lit_wrap : forall b c names ths l, alloc_lit (set_wrap b c) names ths l = alloc_lit c names ths l.
 Proof.
   intros b c names ths l. revert ths. induction l as [|[k d] l IH]; intros ths; cbn [alloc_lit]; [reflexivity|].
-  destruct (fbody d) as [t|]; rewrite IH; reflexivity.
+  replace (alloc_fld (set_wrap b c) names ths d) with (alloc_fld c names ths d) by reflexivity.
+  destruct (alloc_fld c names ths d) as [ths1 f]. rewrite IH. reflexivity.
 Qed.
 
 Lemma eval_literal_static : forall b c st l, lit_static l -> eval_literal (set_wrap b c) st l = eval_literal c st l.
